@@ -98,11 +98,13 @@ pub struct Node {
     pub initializers: Arc<dyn ProtocolInitializerStorer>,
     pub stake_store: Arc<dyn StakeStorer>,
     pub epoch_service: EpochServiceWrapper,
+    #[allow(dead_code)]
     pub metrics: Arc<MetricsService>,
     pub ticker: Arc<dyn TickerService>,
 }
 
 pub struct World {
+    #[allow(dead_code)]
     pub dir: PathBuf,
     pub config: Configuration,
     pub fixture: MithrilFixture,
